@@ -96,10 +96,18 @@ def gen(S, tier):
         first, second = srcgen.interacting_pair(f)
         prior[-1] = dict(prior[-1], msg=first, type=f.pick(["ValueError", "CliKitLike", "RuntimeError"]))
         outcome[1] = dict(outcome[1], msg=second)
+    script = _script(w, outcome)
+    if outcome[0] == "raise" and isinstance(outcome[1], dict) and f.chance(0.15):
+        # the handler's own output leaves a style tag open (legal: the style simply stays on) and the
+        # failure that follows carries a closing tag - of that style or of another one
+        t = f.pick(["info", "comment", "b", "question", "fg=red"])
+        t2 = f.pick(["info", "comment", "error", "b", "question", ""])
+        script.insert(f.randint(0, len(script) - 1), [f.pick(["out", "err"]), "<%s>left open by the handler" % t, None])
+        script[-1] = ["raise", dict(outcome[1], msg=f.pick(["x </%s> y", "closing </%s> only", "<b>bold</%s>"]) % t2)]
     return {
         "app": spec, "path": path, "tail": tail, "exp_args": exp_args, "exp_opts": exp_opts,
         "target_hid": target["hid"], "verbosity": c.pick(["", "", "-v", "-vv", "-vvv"]), "quiet": c.chance(0.1),
-        "ansi": c.chance(0.5), "script": _script(w, outcome), "listeners": listeners,
+        "ansi": c.chance(0.5), "script": script, "listeners": listeners,
         "origin": f.weighted([("harness", 5), ("simfile", 2), ("simfile_fault", 2), ("exec", 2)]),
         # how the handler is attached: an object with handle(), or a callable wrapped in CallbackHandler
         "handler_kind": c.pick(["object", "object", "callback", "callback_var"]),
